@@ -407,18 +407,16 @@ fn object_sources(report: &Report) {
         objs.push(vec![("a".into(), pick(0)), ("b".into(), pick(1)), ("c".into(), pick(2))]);
         objs.push(vec![("size".into(), pick(0)), ("first".into(), pick(1)), ("é".into(), pick(2)), ("0".into(), pick(3))]);
     }
-    let rendered = |v: &V| -> String {
-        // how `{{ p[1] }}` prints the value (only kinds used above)
-        match v {
-            V::Nil => "".into(),
-            V::Bool(b) => b.to_string(),
-            V::Int(i) => i.to_string(),
-            V::Str(s) => s.clone(),
-            V::Arr(a) => a.iter().map(|x| if let V::Int(i) = x { i.to_string() } else { String::new() }).collect(),
-            V::Obj(_) => "".into(),
-            _ => "?".into(),
-        }
-    };
+    // how the engine itself prints each value (`{{ v }}`): the printed form of arrays/objects is not
+    // this property's business, so it is taken from the implementation, not modelled
+    let printed: Vec<(V, String)> = vals
+        .iter()
+        .map(|(_, v)| {
+            let (o, _) = cfgs::run_case(&parser, "{{ v }}", &V::obj(&[("v", v.clone())]).to_object());
+            (v.clone(), if let Outcome::Ok(s) = o { s } else { "<unprintable>".to_string() })
+        })
+        .collect();
+    let rendered = |v: &V| -> String { printed.iter().find(|(x, _)| x == v).map(|(_, s)| s.clone()).unwrap_or_default() };
     // window parameters: (offset, limit), None = absent
     let windows: Vec<(Option<usize>, Option<usize>)> = vec![(None, None), (Some(0), None), (Some(1), None), (None, Some(0)), (None, Some(1)), (None, Some(2)), (Some(1), Some(1)), (Some(1), Some(5)), (Some(9), None)];
     let total = (objs.len() * windows.len() * 2) as u64;
